@@ -215,6 +215,7 @@ f32 quotient `(coord − start) / (peak − start)` of two exactly represented d
 theorem scalar_f32_one_axis (s p e c : Int) (hs : inI16 s) (hp : inI16 p) (he : inI16 e)
     (hc : inI16 c) (hi : ¬ Tent.Ignored s p e) (h1 : s < c) (h2 : c < p) :
     ∃ mA eA mB eB, computeScalarF32 [(s, p, e)] [c] = div f32 (.fin false mA eA) (.fin false mB eB) ∧
+      -14 ≤ eA ∧ -14 ≤ eB ∧
       (mA : Int) * 2 ^ (eA + 14).toNat = c - s ∧ (mB : Int) * 2 ^ (eB + 14).toNat = p - s := by
   have hco : CoordsI16 [c] := fun x hx => by simp at hx; subst hx; exact hc
   unfold computeScalarF32
@@ -230,7 +231,7 @@ theorem scalar_f32_one_axis (s p e c : Int) (hs : inI16 s) (hp : inI16 p) (he : 
     have hB := val14_sub (val14_f2 p hp) (val14_f2 s hs) (natAbs_i16_diff hp hs)
     obtain ⟨mA, eA, hAe, hmA, heA1, heA2, hvA⟩ := val14_nonneg hA (by omega)
     obtain ⟨mB, eB, hBe, hmB, heB1, heB2, hvB⟩ := val14_nonneg hB (by omega)
-    refine ⟨mA, eA, mB, eB, ?_, hvA, hvB⟩
+    refine ⟨mA, eA, mB, eB, ?_, heA1, heB1, hvA, hvB⟩
     rw [hAe, hBe]
     -- 1.0 · A = A
     have hbl : bitLen mA ≤ 24 := bitLen_le_of_lt hmA
@@ -243,6 +244,63 @@ theorem scalar_f32_one_axis (s p e c : Int) (hs : inI16 s) (hp : inI16 p) (he : 
       simp [hne]
     rw [this]
   · have := g.2.1; omega
+
+/-- **scalar_f32_one_axis_half_ulp** (accuracy of the f32 tent): on the rising leg of a one-axis
+region the result `n · 2^q` satisfies `2 · |n · (peak − start) − (coord − start) · 2^(−q)| ≤ peak − start`,
+i.e. it is within HALF a unit in the last place (`2^q`) of the exact rational tent value
+`(coord − start) / (peak − start)` — one correctly rounded operation — and that last place is
+`≤ 2⁻²³` relative (`n ≥ 2²³`) unless the result is subnormal.  (Falling leg: symmetric; several
+axes: each further axis adds two such roundings, see the report.) -/
+theorem scalar_f32_one_axis_half_ulp (s p e c : Int) (hs : inI16 s) (hp : inI16 p) (he : inI16 e)
+    (hc : inI16 c) (hi : ¬ Tent.Ignored s p e) (h1 : s < c) (h2 : c < p) :
+    ∃ n q, computeScalarF32 [(s, p, e)] [c] = .fin false n q ∧ q ≤ 0 ∧
+      2 * ((n : Int) * (p - s)) ≤ 2 * ((c - s) * 2 ^ (-q).toNat) + (p - s) ∧
+      2 * ((c - s) * 2 ^ (-q).toNat) ≤ 2 * ((n : Int) * (p - s)) + (p - s) ∧
+      (2 ^ 23 ≤ n ∨ q = -149) := by
+  have hax : AxesI16 [(s, p, e)] := fun a ha => by simp at ha; subst ha; exact ⟨hs, hp, he⟩
+  have hco : CoordsI16 [c] := fun x hx => by simp at hx; subst hx; exact hc
+  obtain ⟨n, q, hres, hle1⟩ := scalar_f32_range [(s, p, e)] [c] hax hco
+  obtain ⟨mA, eA, mB, eB, hdiv, heA, heB, hvA, hvB⟩ := scalar_f32_one_axis s p e c hs hp he hc hi h1 h2
+  -- bounds on the exponents come from the `Val14` facts; recover them
+  have hC : Val14 (coordF [c]) c := val14_f2 c hc
+  rw [hres] at hdiv
+  have hmA0 : mA ≠ 0 := by intro h; rw [h, Int.natCast_zero, Int.zero_mul] at hvA; omega
+  have hmB0 : mB ≠ 0 := by intro h; rw [h, Int.natCast_zero, Int.zero_mul] at hvB; omega
+  obtain ⟨hE, hlo, hhi, hnorm⟩ := div_half_ulp f32 (by decide) mA eA mB eB n q hmA0 hmB0 hdiv.symm
+  have hq0 : q ≤ 0 := by
+    rcases hnorm with hn | hq
+    · apply Classical.byContradiction; intro hpos
+      have hd := hle1
+      rw [dle_common 0 (by omega) (by omega)] at hd
+      simp only [Int.sub_zero, Int.toNat_zero, Nat.pow_zero, Nat.mul_one] at hd
+      have h2q : 1 ≤ 2 ^ q.toNat := two_pow_pos _
+      have : n ≤ n * 2 ^ q.toNat := Nat.le_mul_of_pos_right _ h2q
+      have hn' : (2 : Nat) ^ (24 - 1) ≤ n := hn
+      have : (2 : Nat) ^ 23 = 8388608 := by decide
+      omega
+    · rw [hq]; decide
+  have hr := half_ulp_rescale n mA mB (f32.p + 2 + bitLen mB) q eA eB hq0 heA heB hE hlo hhi
+  have hvA' : c - s = ((mA * 2 ^ (eA + 14).toNat : Nat) : Int) := by
+    rw [← hvA, Int.natCast_mul, Int.natCast_pow]; rfl
+  have hvB' : p - s = ((mB * 2 ^ (eB + 14).toNat : Nat) : Int) := by
+    rw [← hvB, Int.natCast_mul, Int.natCast_pow]; rfl
+  have hpw : (2 : Int) ^ (-q).toNat = ((2 ^ (-q).toNat : Nat) : Int) := by
+    rw [Int.natCast_pow]; rfl
+  refine ⟨n, q, hres, hq0, ?_, ?_, ?_⟩
+  · rw [hvA', hvB', hpw]; exact_mod_cast hr.1
+  · rw [hvA', hvB', hpw]; exact_mod_cast hr.2
+  · rcases hnorm with hn | hq
+    · left; exact hn
+    · right; exact hq
+
+-- non-vacuity: (1 − 0) / (3 − 0) in f32 is 0x3EAAAAAB = 11184811 · 2⁻²⁵ (within half an ulp of 1/3)
+example : computeScalarF32 [(0, 3, 16384)] [1] = .fin false 11184811 (-25) := by decide +kernel
+example : encode f32 (computeScalarF32 [(0, 8192, 16384), (-16384, -16384, 0)] [4096, -16384]) =
+    0x3F000000 := by decide +kernel
+example : AxesI16 [(0, 3, 16384)] ∧ CoordsI16 [1] ∧ ¬ Tent.Ignored 0 3 16384 := by
+  refine ⟨fun a ha => ?_, fun c hc => ?_, by decide⟩
+  · simp at ha; subst ha; decide
+  · simp at hc; subst hc; decide
 
 /-! ## 4. float deltas that are exact -/
 
